@@ -11,12 +11,12 @@
    nested / adjacent b, i, u tags in angle syntax (short, long and upper-case names) and <font color=..> tags
    (#rrggbb, #rrggbbaa or a named colour, either case, double / single / no quotes), with the trigger
    `trigger_backslash` excluded (brace-short tags and stray closers are not in that sub-grammar), for LF and
-   CR LF terminators, any counters, blank-line runs, hour widths, white space and timing-line tails.
-   Not proved (compared on generated files only, harness/c10.py `model_spec` and `spec_ok`): character references,
-   the long brace forms {bold} {italic} {underline}, and files whose last line has no terminator
-   (f_final_eol = false). *)
+   CR LF terminators, with or without a terminator on the last line, any counters, blank-line runs, hour widths,
+   white space and timing-line tails.
+   Not proved (compared on generated files only, harness/c10.py `model_spec` and `spec_ok`): character references
+   (&amp; &#65; ...) and the long brace forms {bold} {italic} {underline}. *)
 From TT Require Import Base.Prelude Base.SrtTypes Gen.SrtTables Model.SrtReader Spec.SrtCueSpec
-  Proofs.C10.Time Proofs.C10.Roundtrip Proofs.C10.Tags Proofs.C10.Witness.
+  Proofs.C10.Time Proofs.C10.Roundtrip Proofs.C10.NoFinalEol Proofs.C10.Tags Proofs.C10.Witness.
 From Coq Require Import QArith.
 Local Open Scope Z_scope.
 
@@ -34,27 +34,27 @@ Theorem C10_exact_time : forall bh bm bs bms ws1 ws2 eh em es ems tail,
 Proof. exact exact_time. Qed.
 
 (* round trip, tag-free text: one cue per paragraph, exact times, lines in order separated by line breaks *)
-Theorem C10_roundtrip_partial : forall f, wf_file f = true -> f_final_eol f = true -> plain_file f = true ->
+Theorem C10_roundtrip_partial : forall f, wf_file f = true -> plain_file f = true ->
   trigger_backslash f = false -> read_cues_file (print_file f) = Ok (cues f).
-Proof. exact roundtrip_plain_file. Qed.
-Theorem C10_roundtrip_stringio_partial : forall f, wf_file f = true -> f_final_eol f = true -> f_crlf f = false -> plain_file f = true ->
+Proof. exact roundtrip_plain_file_any. Qed.
+Theorem C10_roundtrip_stringio_partial : forall f, wf_file f = true -> f_crlf f = false -> plain_file f = true ->
   trigger_backslash f = false -> read_cues (print_file f) = Ok (cues f).
-Proof. exact roundtrip_plain_lf. Qed.
+Proof. exact roundtrip_plain_lf_any. Qed.
 
 (* tag scoping: with b/i/u and font-colour tags in angle syntax, nested and adjacent at will, each character carries
    exactly the styles of the tags that enclose it, the innermost colour winning (`cues` is defined by that rule);
    includes the previous theorem *)
-Theorem C10_tags_scope_partial : forall f, wf_file f = true -> f_final_eol f = true -> angle_file f = true ->
+Theorem C10_tags_scope_partial : forall f, wf_file f = true -> angle_file f = true ->
   trigger_backslash f = false -> read_cues_file (print_file f) = Ok (cues f).
 Proof. exact roundtrip_angle_file. Qed.
-Theorem C10_tags_scope_stringio_partial : forall f, wf_file f = true -> f_final_eol f = true -> f_crlf f = false -> angle_file f = true ->
+Theorem C10_tags_scope_stringio_partial : forall f, wf_file f = true -> f_crlf f = false -> angle_file f = true ->
   trigger_backslash f = false -> read_cues (print_file f) = Ok (cues f).
 Proof. exact roundtrip_angle_lf. Qed.
 
 (* counters, blank-line runs, 2- or 3-digit hour fields, white space, tails and terminators are tolerated: two files
    that agree on clock fields and payloads read the same *)
 Theorem C10_tolerates : forall f f',
-  wf_file f = true -> wf_file f' = true -> f_final_eol f = true -> f_final_eol f' = true ->
+  wf_file f = true -> wf_file f' = true ->
   angle_file f = true -> angle_file f' = true -> trigger_backslash f = false -> trigger_backslash f' = false ->
   Forall2 same_content (f_cues f) (f_cues f') ->
   read_cues_file (print_file f) = read_cues_file (print_file f') /\ read_cues_file (print_file f) = Ok (cues f).
